@@ -21,6 +21,8 @@ def attribute(run, line, verdict):
         k = ev.get("e")
         if k in ("Ctx", "Overlap") or (k == "Start" and ev.get("sp16", 0) != 0):
             return "C02"          # registers / FP control state / stack alignment
+        if k == "Ledger":
+            return "C12+C06"      # a resource was not released exactly once by the time ABT_finalize returned
         if k in ("MigReq", "MigRet", "MigCb", "MigCount") or (k == "Back" and "pool" in ev):
             return "C13"
         if k in ("Prim", "Run", "Obs"):
